@@ -7,24 +7,39 @@ from sa.astx import body_walk, call_attr, call_name, dotted, src
 from sa.effects import class_accesses
 from sa.selftest import Mutant, Silent
 from sa.source import AnalysisError, methods
-from sa.props._lib_c import (norm_class, norm_func, Closure, anchor, section, EvalAssert, EvalUnsupported, Interp, SelfRef, all_funcs_of_class, assign_pairs, guarded_not_none,
+from sa.props._lib_c import (Lin, SymEnv, SymInterp, norm_class, norm_func, Closure, anchor, section, EvalAssert, EvalUnsupported, Interp, SelfRef, all_funcs_of_class, assign_pairs, guarded_not_none,
                              gfind, is_const, is_none_test, must_pass, nested_defs, no_exc, self_attr)
 
 PROPERTY = "C10"
 TASK = "internet/task.py"
 Q = "twisted.internet.task.LoopingCall"
-TECHNIQUE = "CFG dominance, who-may-call/write, swap-before-fire, finite-domain evaluation of the delay arithmetic"
+TECHNIQUE = "CFG dominance/must-pass, who-may-call/write on normalised code; symbolic interval arithmetic"
 EXPLANATION = (
-    "Decides on LoopingCall: (a) no overlap - _scheduleFrom/callLater(self)/self() are reached only from start (exclusive "
-    "now / not-now branches), reset (pending call cancelled first) and the success callback registered on maybeDeferred(self.f) "
-    "under `self.running` (and each of those sites is reached when it must be, so the loop continues); __call__ clears self.call before calling f and calls f only through maybeDeferred; (b) start()'s "
-    "Deferred fires once - every fire uses a detached local (swap with None) taken before the fire, with running already False, "
-    "the errback always fires, the success callback fires on the not-running branch, stop() cancels and fires only when a call "
-    "is pending, start() returns the local it stored; (c) cadence - the time handed to _scheduleFrom is a clock reading taken at "
-    "completion, and the delay computed by _scheduleFrom and the counts produced by withCount's counter are evaluated over a "
-    "finite dyadic domain (incl. a large-exponent absorption case; counter histories include a first call that is 2..7 intervals late, for now=True and now=False, with the sum-of-counts oracle measured from start()) against the boundary oracle. Not decided: floating-point "
-    "behaviour for non-dyadic intervals, restart / reset interaction with the skip counter, the clock implementation."
+    "All clauses are decided on a normalised copy of LoopingCall (private helpers inlined, naming temporaries substituted). "
+    "(a) No overlap - STRUCTURAL (who-may-call + CFG dominance): _scheduleFrom / callLater(self) / self() are reached only from start (exclusive now / "
+    "not-now branches), reset (pending call cancelled first) and the success callback on maybeDeferred(self.f) under `self.running`, each reached where "
+    "it must be; __call__ clears self.call before f and calls f only through maybeDeferred. "
+    "(b) start()'s Deferred fires exactly once, nothing afterwards - STRUCTURAL (take-then-fire, must-pass, who-may-write): every fire uses a local detached "
+    "(swap with None) before the call-out with running already False; the errback always fires, the success callback fires on the not-running branch, stop() "
+    "cancels, forgets and fires only when a call is pending; start() returns the local it stored and completes its state before the first call. "
+    "(c) Cadence - STRUCTURAL: the time handed to _scheduleFrom is a clock reading taken at completion (def-use), one callLater(delay, self) per path, stored in "
+    "self.call; FINITE-EXHAUSTIVE: _scheduleFrom is evaluated on symbolic times starttime + interval*(k + rho) (complete over the reals, cases interval = 0 / > 0) "
+    "and must land exactly on starttime + interval*(k+1) with a positive delay; BOUNDED second layer: the same function on a dyadic float grid incl. the "
+    "large-exponent absorption case (floating-point rounding has bounded evidence only - no finite abstraction of IEEE rounding is attempted). "
+    "(d) withCount - FINITE-EXHAUSTIVE: an induction over the history on symbolic times (first / later call x now True / False x same / later interval, and "
+    "interval = 0): the reported count is I(now) - I(baseline), reported exactly when positive, and a report moves the baseline to now, so counts telescope to "
+    "the boundaries elapsed since start(); BOUNDED second layer: ~2500 concrete calls over clock-jump histories incl. late first calls. "
+    "Not decided: restart()/reset() interaction with _realLastTime, the clock implementation."
 )
+RULE_KINDS = {
+    "*": "structural",
+    # the repository's own arithmetic evaluated on symbolic times start + interval*(k + rho): complete abstract domain over the reals
+    "cadence/delay-symbolic": "finite-exhaustive",
+    "count/telescoping-symbolic": "finite-exhaustive",
+    # the same functions interpreted on a dyadic float grid / on clock-jump histories: second layer, float behaviour (absorption case)
+    "cadence/delay-is-next-boundary": "bounded",
+    "count/sum-equals-boundaries": "bounded",
+}
 ASSUMPTIONS = [
     "rules read a normalised copy of the class: a private non-generator method that is not an anchor, is only ever called as self._h(...) "
     "inside its class and is mentioned in no other module is inlined at its call sites; single-assignment naming temporaries are substituted "
@@ -417,8 +432,130 @@ def check(ctx):
     with section(ctx, '(c) finite-domain evaluation of the delay and of the skip counter'):
         _eval_schedule(ctx, f_sched, meths)
 
+    with section(ctx, "(c) symbolic evaluation of the delay over all times"):
+        _sym_schedule(ctx, f_sched, meths)
+
+    with section(ctx, "(c) symbolic (inductive) evaluation of the skip counter"):
+        _sym_counter(ctx, f_wc, meths)
+
     with section(ctx, "(c) finite-domain evaluation of the skip counter"):
         _eval_counter(ctx, f_wc, meths)
+
+
+_SYM_DOMAIN = ("abstract domain: every time >= starttime is starttime + interval*(k + rho) with k a non-negative integer and 0 <= rho < 1; the code is "
+               "evaluated on these symbols once per case it can distinguish (interval == 0 / > 0, first call / later call, no boundary crossed / at least one "
+               "crossed, now=True / False), in exact real arithmetic - complete for the reals; floating-point rounding is sampled by the grid rule only")
+
+
+def _sym_schedule(ctx, f_sched, meths):
+    rule = "cadence/delay-symbolic"
+    qs = f"{Q}._scheduleFrom | <delay passed to callLater>"
+    env = SymEnv(ints={"k"}, fracs={"rho"})
+    i_ = Lin(env, None, {1: 1})
+    s_ = Lin(env, None, None, 1)
+    for label, interval, when, want in (("interval > 0", i_, s_ + Lin(env, None, {"k": 1, "rho": 1}), s_ + Lin(env, None, {"k": 1, 1: 1})),
+                                        ("interval == 0", 0, s_ + Lin(env, {"k": 1, "rho": 1}), None)):
+        rec = []
+        sr = SelfRef({"interval": interval, "starttime": s_, "call": None})
+        it = SymInterp(sr, meths, {"self.clock.callLater": lambda d, fn, rec=rec: rec.append((d, fn)) or object()})
+        try:
+            it.call_function(f_sched, [when], bind_self=True)
+        except (EvalUnsupported, EvalAssert) as e:
+            ctx.note(f"{rule} [{label}]: shape not recognised ({e}); clause left to the bounded rule cadence/delay-is-next-boundary")
+            continue
+        ok = len(rec) == 1 and rec[0][1] is sr
+        why = f"{len(rec)} callLater calls"
+        if ok:
+            d = rec[0][0]
+            try:
+                if want is None:
+                    ok = (isinstance(d, (int, float)) and d == 0) or (isinstance(d, Lin) and d._const() == 0)
+                    why = f"delay {d!r} instead of 0"
+                else:
+                    d = Lin.lift(env, d)
+                    ok = (when + d).same(want) and d.sign() > 0
+                    why = f"when + delay = {when + d!r}, expected the next boundary {want!r} with delay > 0"
+            except EvalUnsupported as e:
+                ctx.note(f"{rule} [{label}]: result not decidable ({e}); clause left to the bounded rule")
+                continue
+        ctx.check(ok, rule, qs + f" | {label}", f"for when = starttime + interval*(k + rho): {why} - the call does not land on the first boundary strictly after `when`",
+                  detail=_SYM_DOMAIN)
+
+
+def _sym_counter(ctx, f_wc, meths):
+    rule = "count/telescoping-symbolic"
+    qw = f"{Q}.withCount | <counter>"
+    nd = nested_defs(f_wc)
+    params = [a.arg for a in f_wc.args.args]
+    ctor = [c for c in body_walk(f_wc) if isinstance(c, ast.Call) and isinstance(c.func, ast.Name) and params and c.func.id == params[0]
+            and len(c.args) == 1 and isinstance(c.args[0], ast.Name) and c.args[0].id in nd]
+    if len(ctor) != 1 or len(params) < 2:
+        ctx.note(f"{rule}: counter not located; clause left to the bounded rule count/sum-equals-boundaries")
+        return
+    counter = nd[ctor[0].args[0].id]
+    self_names = {t.id for st in body_walk(f_wc) for t, v in assign_pairs(st) if isinstance(t, ast.Name) and v is ctor[0]} or {"self"}
+    cb_name = params[1]
+    # Induction over the history.  I(t) = number of whole intervals between starttime and t.  Step A: first invocation (no count reported yet);
+    # step B: _realLastTime = L was set by an earlier report.  In both the reported count must be I(now) - I(baseline or L), it must be reported
+    # exactly when positive, and a report must move _realLastTime to now; then the counts telescope to I(now) - I(baseline) for every history.
+    cases = []
+    for ras in (True, False):
+        for crossed in (False, True):
+            cases.append(("first call", ras, crossed))
+            cases.append(("later call", ras, crossed))
+    for step, ras, crossed in cases:
+        label = (f"{step}, now={ras}, called in {'a later interval than' if crossed else 'the same interval as'} "
+                 f"{'starttime' if step == 'first call' else 'the last report'}")
+        if step == "first call":
+            subst = {"n": ({1: 1, "d": 1} if crossed else {1: 0})}
+            if ras and not crossed:
+                subst = {"n": {1: 0}}
+        else:
+            subst = {"n": ({"m": 1, 1: 1, "d": 1} if crossed else {"m": 1})}
+        env = SymEnv(ints={"n", "m", "d"}, fracs={"rn", "rm"}, subst=subst)
+        i_ = Lin(env, None, {1: 1})
+        s_ = Lin(env, None, None, 1)
+        now = s_ + Lin(env, None, {"n": 1, "rn": 1})
+        last = None if step == "first call" else s_ + Lin(env, None, {"m": 1, "rm": 1})
+        expect = Lin(env, {"n": 1, 1: (1 if ras else 0)}) if step == "first call" else Lin(env, {"n": 1, "m": -1})
+        sr = SelfRef({"interval": i_, "starttime": s_, "_runAtStart": ras, "_realLastTime": last})
+        got = []
+        siblings = {"__outer__": None}
+        for nm, fn in nd.items():
+            siblings[nm] = Closure(fn, siblings)
+        it = SymInterp(sr, meths, {"self.clock.seconds": lambda now=now: now, cb_name: lambda c, got=got: got.append(c)}, self_names=tuple(self_names))
+        try:
+            it.call_function(counter, [], outer=siblings)
+            esign = expect.sign()
+            after = sr.attrs.get("_realLastTime")
+            if esign > 0:
+                ok = len(got) == 1 and Lin.lift(env, got[0]).same(expect) and isinstance(after, Lin) and after.same(now)
+                why = f"reported {got!r}, _realLastTime -> {after!r}; expected exactly one report of I(now) - I(baseline) = {expect!r} and _realLastTime = now"
+            else:
+                ok = not got and (after is last or (isinstance(after, Lin) and (after.same(now) or (last is not None and after.same(last)))))
+                why = f"reported {got!r}, _realLastTime -> {after!r}; expected no report (no boundary elapsed) and the baseline kept in the same interval"
+        except (EvalUnsupported, EvalAssert) as e:
+            ctx.note(f"{rule} [{label}]: shape not recognised / not decidable ({e}); clause left to the bounded rule count/sum-equals-boundaries")
+            continue
+        ctx.check(ok, rule, qw + f" | {label}", f"with now = starttime + interval*(n + rho): {why}: the counts no longer sum to the number of boundaries elapsed since start()",
+                  detail=_SYM_DOMAIN + "; induction: reported count = I(now) - I(previous baseline) and a report moves the baseline to now, so counts telescope")
+    # interval == 0: every invocation counts one
+    for last0 in (None, 3.0):
+        env = SymEnv(ints={"n"}, fracs={"rn"})
+        now = Lin(env, {"n": 1, "rn": 1})
+        sr = SelfRef({"interval": 0, "starttime": 0.0, "_runAtStart": True, "_realLastTime": last0})
+        got = []
+        siblings = {"__outer__": None}
+        for nm, fn in nd.items():
+            siblings[nm] = Closure(fn, siblings)
+        it = SymInterp(sr, meths, {"self.clock.seconds": lambda now=now: now, cb_name: lambda c, got=got: got.append(c)}, self_names=tuple(self_names))
+        try:
+            it.call_function(counter, [], outer=siblings)
+        except (EvalUnsupported, EvalAssert) as e:
+            ctx.note(f"{rule} [interval == 0]: shape not recognised ({e}); clause left to the bounded rule")
+            continue
+        ctx.check(len(got) == 1 and got[0] == 1, rule, qw + f" | interval == 0, {'first' if last0 is None else 'later'} call", f"interval 0: reported {got!r} instead of 1",
+                  detail=_SYM_DOMAIN)
 
 
 def _eval_schedule(ctx, f_sched, meths):
